@@ -50,6 +50,7 @@ func main() {
 	case "plan":
 		stats = famPlan(tr, *scratch, *seed, *tier, *workers)
 	case "schema":
+		auxBehaviours = *behaviours
 		stats = famSchema(tr, *scratch, *seed, *tier, *repo, *nfpmBin)
 	case "sign":
 		stats = famSign(tr, *scratch, *seed, *tier, *repo)
